@@ -149,7 +149,13 @@ impl Cell for str {
             }
             // Don't add the delimiter if we just trimmed whitespace.
             if self[boundary..].trim().is_empty() {
-                self[..boundary + 1].to_owned()
+                // Nb. Keep a space instead of the delimiter, but only if it fits in the given
+                // width. Other kinds of whitespace can be several bytes long or several columns wide.
+                if cols < width && self[boundary..].starts_with(' ') {
+                    self[..boundary + 1].to_owned()
+                } else {
+                    self[..boundary].to_owned()
+                }
             } else {
                 format!("{}{delim}", &self[..boundary])
             }
